@@ -4,12 +4,33 @@
   `(*parser).parseBlock` (dispatch by trigger byte, flushing of pending text with `MergeOrAppendTextSegment`,
   position restore after a declined consultation, `goto retry`, end-of-line trimming including repair 8b9b792),
   modelled in GM.Model.InlineLoop for ABSTRACT parsers (trigger bytes + a script position ↦ decline | accept n).
-  What the extensions' own `Parse` bodies / paragraph transformers / renderer options do on trigger-free
-  documents is NOT modelled: that half of C11 is searched by component `conservative`.
-  Helper lemmas: GM/Proof/InlineLoop.lean.
+  PER EXTENSION (second half of this file) the extensions' own code is tied to theorems:
+   * regenerated facts (GM.Gen.ExtFacts, read from extension/*.go and parser/*.go by gmgen on every run): the byte
+     literals of every `Trigger()`, what every `Extend` registers, GFM's member list — `facts_*` obligations;
+   * `never_consulted`: a parser none of whose trigger bytes occurs in the source changes nothing at all;
+   * decline models (GM.Model.ExtDecline, tied by component `extdecline`) of Linkify, the footnote parsers and
+     transformer, the definition-list parsers, the task-list and typographer parsers, the table transformer
+     (GM.Model.Table) and the East-Asian line-break decision, with a theorem each: on input without the
+     extension's characters the code returns nil / leaves the paragraph / writes the break, without effect;
+   * `ext_*_conservative_inline`: facts + loop theorem + decline theorem composed, per extension;
+   * `never_consulted_concrete`, `ext_strikethrough/tasklist_conservative_concrete`: the same on the CONCRETE inline
+     phase (GM.Model.InlinesLoop with the default parser models; open-table variant GM.Model.InlinesLoopX).
+  Still SEARCHED, not proved (component `conservative`): the composition with the block phase and the renderer
+  (that a block parser which declines leaves the block structure alone is the contract of openBlocks, not proved
+  here), the node renderers each extension registers (inert without their node kinds), Table's AST transformer.
+  Helper lemmas: GM/Proof/InlineLoop.lean, InlineLoopUnused.lean, ExtDecline.lean, ExtLoop.lean.
 -/
 import GM.Model.InlineLoop
 import GM.Proof.InlineLoop
+import GM.Model.ExtDecline
+import GM.Model.InlinesLoop
+import GM.Spec.ExtFacts
+import GM.Proof.InlineLoopUnused
+import GM.Proof.ExtDecline
+import GM.Proof.ExtLoop
+import GM.Proof.ExtWriter
+import GM.Model.InlinesLoopX
+import GM.Proof.InlinesLoopX
 
 namespace GM.Props.C11
 open GM GM.InlineLoop GM.Proof.InlineLoop
@@ -72,6 +93,249 @@ theorem first_accept_wins (b : Block) (saved : Reader) (pc : UInt8) (i : Nat) (c
 theorem table_keeps_order (xs ys : List Parser) (pc : UInt8) : table (xs ++ ys) pc = table xs pc ++ table ys pc :=
   table_append xs ys pc
 
+/-! ## Per extension -/
+
+open GM.ExtLoop GM.Proof.ExtLoop GM.Proof.InlineLoopUnused
+
+/-! ### regenerated facts (a changed `Trigger()` / `Extend` breaks one of these on the next run) -/
+
+/-- Regenerated fact: gmgen understood every `Trigger()` body, every registered constructor and every option call. -/
+theorem facts_understood : Spec.Ext.allUnderstood = true := by decide +kernel
+
+/-- Regenerated fact: each built-in extension's `Extend` registers exactly what is expected of it — Strikethrough,
+    TaskList, Linkify, Typographer one inline parser (plus a node renderer for the first two); Table a paragraph
+    transformer, an AST transformer, a node renderer; Footnote a block parser, an inline parser, an AST
+    transformer, a node renderer; DefinitionList two block parsers and a node renderer; CJK only renderer/parser
+    options; GFM nothing of its own — with the priorities of the documentation. -/
+theorem facts_registrations : Spec.Ext.registrationsAsExpected = true ∧ Spec.Ext.noOtherExtension = true := by
+  decide +kernel
+
+/-- Regenerated fact: the trigger bytes of every parser an extension registers lie inside the characters C11 names
+    for it: Strikethrough ⊆ {~}; TaskList ⊆ {[}; Footnote block ⊆ {[}, inline ⊆ {!, [}; DefinitionList ⊆ {:};
+    Typographer ⊆ {' " - . < >} ∪ {, * [} (at the last three its Parse declines: `typographer_declines`);
+    Linkify = {space * _ ~ (} exactly (NOT inside {: @ w}: Linkify is covered by `linkify_declines`);
+    Table and CJK register no block or inline parser. -/
+theorem facts_triggers : Spec.Ext.triggersAsExpected = true := by decide +kernel
+
+/-- Regenerated fact: `extension.GFM.Extend` is exactly `Linkify.Extend; Table.Extend; Strikethrough.Extend;
+    TaskList.Extend`, registers nothing itself, and no other extension delegates. -/
+theorem facts_gfm_members : Spec.Ext.gfmAsExpected = true := by decide +kernel
+
+/-- Regenerated fact: the trigger table of the DEFAULT inline parsers, as `Trigger()` and
+    `parser.DefaultInlineParsers` say, is the one hard-coded in the concrete inline-phase model
+    (GM.Inl.parsersFor): same parsers for every byte, in priority order. -/
+theorem facts_default_inline_table : Spec.Ext.defaultInlineSorted = true ∧
+    ∀ c : UInt8, Spec.Ext.defaultInlineFor c = (Inl.parsersFor c).map fun
+      | .codeSpan => "codeSpanParser" | .link => "linkParser" | .autoLink => "autoLinkParser"
+      | .rawHTML => "rawHTMLParser" | .emphasis => "emphasisParser" := by
+  refine ⟨by decide +kernel, ?_⟩
+  apply forall_uint8
+  decide +kernel
+
+/-! ### never consulted -/
+
+/-- `never_consulted`. If no byte of the source is a trigger byte of `q`, and `q` is not registered for ' ' (the
+    table index of white space and of a line head), then inserting `q` ANYWHERE in the priority order changes
+    nothing: the two runs are EQUAL — same children, same reader, same Parse call log, same outcome — for every
+    block (well-formed or not), whatever `q` and the other parsers would do. -/
+theorem never_consulted (b : Block) (l1 l2 : List Parser) (q : Parser) (escapedSpace : Bool)
+    (h32 : (32 : UInt8) ∉ q.triggers) (hsrc : ∀ c ∈ b.src, c ∉ q.triggers) :
+    run ⟨l1 ++ q :: l2, escapedSpace⟩ b = run ⟨l1 ++ l2, escapedSpace⟩ b :=
+  run_unused b l1 l2 q escapedSpace h32 hsrc
+
+/-- Strikethrough, inline side: ANY parser carrying the trigger bytes `(*strikethroughParser).Trigger()` returns
+    (regenerated) is never consulted on a source without '~': the runs with and without it are equal. -/
+theorem ext_strikethrough_conservative_inline (b : Block) (l1 l2 : List Parser) (q : Parser) (escapedSpace : Bool)
+    (hq : q.triggers = Spec.Ext.triggersOf "strikethrough" "inline") (hsrc : (126 : UInt8) ∉ b.src) :
+    run ⟨l1 ++ q :: l2, escapedSpace⟩ b = run ⟨l1 ++ l2, escapedSpace⟩ b :=
+  run_unused_of_subset b l1 l2 q escapedSpace [126] (hq ▸ strikethrough_triggers) (by decide)
+    (fun c hc => by simp at hc; subst hc; exact hsrc)
+
+/-- TaskList, inline side: the same for `(*taskCheckBoxParser).Trigger()` and sources without '['. -/
+theorem ext_tasklist_conservative_inline (b : Block) (l1 l2 : List Parser) (q : Parser) (escapedSpace : Bool)
+    (hq : q.triggers = Spec.Ext.triggersOf "taskList" "inline") (hsrc : (91 : UInt8) ∉ b.src) :
+    run ⟨l1 ++ q :: l2, escapedSpace⟩ b = run ⟨l1 ++ l2, escapedSpace⟩ b :=
+  run_unused_of_subset b l1 l2 q escapedSpace [91] (hq ▸ taskList_triggers) (by decide)
+    (fun c hc => by simp at hc; subst hc; exact hsrc)
+
+/-- TaskList, parser body: called on a line that does not start with '[' (impossible through the loop, see above)
+    or outside the first text block of a list item, Parse returns nil without effect. -/
+theorem tasklist_declines (inItem : Bool) (line : Bytes) (h : line.head? ≠ some 91) :
+    Ext.taskParse inItem line = .nil 0 := Ext.taskParse_needs_bracket inItem line h
+
+/-! ### Typographer -/
+
+/-- `typographer_declines`. `(*typographerParser).Parse` (model `Ext.typoParse`, default substitutions) consulted at a
+    byte other than ' " - . < > — in particular at its three other trigger bytes , * [ — returns nil without
+    advancing the reader or touching the parent. -/
+theorem typographer_declines (c : UInt8) (rest : Bytes) (h : c ≠ 39 ∧ c ≠ 34 ∧ c ≠ 45 ∧ c ≠ 46 ∧ c ≠ 60 ∧ c ≠ 62) :
+    Ext.typoParse (c :: rest) = .nil 0 := Ext.typoParse_declines c rest h
+
+/-- Typographer, inline side: the parser with the REGENERATED trigger bytes whose answers are those of the decline
+    model on the line the reader shows, added anywhere to a configuration obeying the progress contract, leaves the
+    resolved text of every well-formed block without ' " - . < > unchanged. (It IS consulted at , * [ and at
+    nothing else; it declines there.) -/
+theorem ext_typographer_conservative_inline (b : Block) (hWF : WF b) (l1 l2 : List Parser) (id : Nat) (escapedSpace : Bool)
+    (hC : Contract (l1 ++ l2))
+    (hsrc : ∀ c ∈ b.src, c ≠ 39 ∧ c ≠ 34 ∧ c ≠ 45 ∧ c ≠ 46 ∧ c ≠ 60 ∧ c ≠ 62) :
+    ∃ stA stB, run ⟨l1 ++ l2, escapedSpace⟩ b = .done stA ∧
+      run ⟨l1 ++ extParser b id (Spec.Ext.triggersOf "typographer" "inline") (fun _ _ => Ext.typoParse) :: l2, escapedSpace⟩ b = .done stB ∧
+      resolve b.src stB.kids = resolve b.src stA.kids :=
+  run_silent hWF l1 l2 _ escapedSpace (typographer_silent b id _ hsrc) hC
+
+/-! ### Linkify -/
+
+/-- `linkify_declines`. `(*linkifyParser).Parse` (model `Ext.linkifyParse`: default configuration; the first byte is
+    skipped when it is one of the trigger bytes; `http:`/`https:`/`ftp:`/`www.` guards; e-mail candidate through
+    util.FindEmailIndex) on ANY non-empty peeked line without ':', without '@' and without the substring `www.`
+    returns nil, with the reader where it was and the parent untouched — inside or outside a link label. -/
+theorem linkify_declines (inLinkLabel : Bool) (line : Bytes) (hne : line ≠ [])
+    (hcolon : (58 : UInt8) ∉ line) (hat : (64 : UInt8) ∉ line) (hwww : Ext.hasInfix Ext.domainWWW line = false) :
+    Ext.linkifyParse inLinkLabel line = .nil 0 := Ext.linkifyParse_declines inLinkLabel line hne hcolon hat hwww
+
+/-- Linkify, inline side. Linkify IS consulted on trigger-free documents — at every space, tab, line head, `*`,
+    `_`, `~`, `(` — and every consultation flushes the pending text. With the REGENERATED trigger bytes and the
+    decline model as script (whatever the link-label state at each position): on every well-formed block whose
+    source has no ':', no '@' and no `www.`, the resolved text is the same with and without it. -/
+theorem ext_linkify_conservative_inline (b : Block) (hWF : WF b) (l1 l2 : List Parser) (id : Nat) (escapedSpace : Bool)
+    (inLabel : Nat → Nat → Bool) (hC : Contract (l1 ++ l2))
+    (hcolon : (58 : UInt8) ∉ b.src) (hat : (64 : UInt8) ∉ b.src) (hwww : Ext.hasInfix Ext.domainWWW b.src = false) :
+    ∃ stA stB, run ⟨l1 ++ l2, escapedSpace⟩ b = .done stA ∧
+      run ⟨l1 ++ extParser b id (Spec.Ext.triggersOf "linkify" "inline") (fun l p => Ext.linkifyParse (inLabel l p)) :: l2, escapedSpace⟩ b = .done stB ∧
+      resolve b.src stB.kids = resolve b.src stA.kids :=
+  run_silent hWF l1 l2 _ escapedSpace (linkify_silent b id _ inLabel hcolon hat hwww) hC
+
+/-! ### Footnote -/
+
+/-- `footnote_open_declines`. `(*footnoteBlockParser).Open` on a line without the two bytes `[^` (block offset inside
+    the line, or −1 for a blank line, as openBlocks sets it) returns (nil, NoChildren) before creating anything. -/
+theorem footnote_open_declines (line : Bytes) (pos : Int) (hpos : pos < 0 ∨ pos.toNat < line.length)
+    (h : Ext.hasInfix [91, 94] line = false) : Ext.footnoteOpen line pos = .nil :=
+  Ext.footnoteOpen_declines line pos hpos h
+
+/-- `footnote_inline_declines`. (a) While the context holds no FootnoteList — none exists until a footnote
+    definition has been opened and closed, which needs `[^` by `footnote_open_declines` — `(*footnoteParser).Parse`
+    returns nil on EVERY line (it may have advanced the reader first; the loop restores it), parent untouched.
+    (b) At a '[' not followed by '^' it returns nil at its first test whatever the context holds. -/
+theorem footnote_inline_declines (line : Bytes) :
+    (∃ m, Ext.footnoteParse none line = .nil m) ∧
+    (∀ refs, line.head? = some 91 → Ext.hasInfix [91, 94] line = false → Ext.footnoteParse refs line = .nil 0) :=
+  ⟨Ext.footnoteParse_noList line, fun refs hh h => Ext.footnoteParse_bracket refs line hh h⟩
+
+/-- Footnote, inline side: with the REGENERATED triggers ('!' and '[' — it IS consulted at every image and link
+    opener) and the decline model without a list as script, the resolved text of every well-formed block is
+    unchanged. -/
+theorem ext_footnote_conservative_inline (b : Block) (hWF : WF b) (l1 l2 : List Parser) (id : Nat) (escapedSpace : Bool)
+    (hC : Contract (l1 ++ l2)) :
+    ∃ stA stB, run ⟨l1 ++ l2, escapedSpace⟩ b = .done stA ∧
+      run ⟨l1 ++ extParser b id (Spec.Ext.triggersOf "footnote" "inline") (fun _ _ => Ext.footnoteParse none) :: l2, escapedSpace⟩ b = .done stB ∧
+      resolve b.src stB.kids = resolve b.src stA.kids :=
+  run_silent hWF l1 l2 _ escapedSpace (footnote_silent b id _) hC
+
+/-- the footnote AST transformer returns the document as it is when the context holds no FootnoteList
+    (footnote.go:202-218; by construction of the model, tied by op `fntr`) -/
+theorem footnote_transformer_without_list {Doc : Type} (d : Doc) : Ext.footnoteTransformNoList d = d := rfl
+
+/-! ### DefinitionList -/
+
+/-- `deflist_open_declines`. Both definition-list block parsers' `Open` return (nil, NoChildren) on a line without
+    ':' — whatever the parent, its last child and the indent are. -/
+theorem deflist_open_declines (parentIsDL : Bool) (line : Bytes) (pos indent : Int) (last : Ext.LastChild)
+    (hpos : pos < 0 ∨ pos.toNat < line.length) (h : (58 : UInt8) ∉ line) :
+    Ext.defListOpen parentIsDL line pos indent last = .nil ∧ Ext.defDescOpen parentIsDL line pos indent = .nil :=
+  ⟨Ext.defListOpen_declines parentIsDL line pos indent last hpos h, Ext.defDescOpen_declines parentIsDL line pos indent hpos h⟩
+
+/-- Block side of "never consulted": a block parser with trigger bytes `t` does not change the list of parsers
+    openBlocks tries on a line whose first non-space byte is not in `t` (parser.go:749-771, 845-849, 949-955:
+    triggered parsers in priority order, then the free ones) — so DefinitionList's and Footnote's block parsers are
+    not even called on lines that do not start with ':' / '['. -/
+theorem block_parser_not_tried (l1 l2 : List Ext.BlockP) (q : Ext.BlockP) (t : Bytes) (c : UInt8)
+    (hq : q.triggers = some t) (hc : c ∉ t) :
+    Ext.blockCandidates (l1 ++ q :: l2) c = Ext.blockCandidates (l1 ++ l2) c :=
+  Ext.blockCandidates_insert_off l1 l2 q t c hq hc
+
+/-! ### Table -/
+
+/-- `table_needs_dash`. The table paragraph transformer (model GM.Table.transform, tied by component `table`) leaves
+    every paragraph of a source without '-' exactly as it is: no delimiter row, no table. -/
+theorem table_needs_dash (src : Bytes) (lines : List Table.Seg) (h : (45 : UInt8) ∉ src) :
+    Table.transform src lines = { para := lines, table := none } :=
+  Ext.transform_no_dash src lines fun l _ => Ext.value_no_dash src l h
+
+/-! ### CJK -/
+
+/-- `cjk_ascii_breaks_kept`. With the Unicode predicates as parameters that are false on ASCII (`AsciiNarrow`:
+    checked exhaustively on the real tables by `extdecline`), under both East-Asian styles the renderer writes the
+    newline of a soft break whenever the text before it ends in, and the text after it (if any) starts with, an
+    ASCII character — exactly as without the option. -/
+theorem cjk_ascii_breaks_kept (U : Ext.RuneClass) (hU : Ext.AsciiNarrow U) (style : Nat) (hs : style ≤ 2) (valueEmpty : Bool)
+    (last : Nat) (next : Option Nat) (hl : last < 128) (hn : ∀ r, next = some r → r < 128) :
+    Ext.softBreakWritten U style valueEmpty last next = Ext.softBreakWritten U 0 valueEmpty last next :=
+  Ext.softBreakWritten_ascii U hU style hs valueEmpty last next hl hn
+
+/-- `cjk_escaped_space_inert`. `parser.WithEscapedSpace()` is read by the inline loop only in the trigger test of a
+    space/tab; when no inline parser is registered for ' ' (every built-in configuration without Linkify) the run
+    is EQUAL with and without it. (With Linkify the extra/missing consultations are declined ones:
+    `silent_parser_irrelevant`.) -/
+theorem cjk_escaped_space_inert (ps : List Parser) (b : Block) (h : table ps 32 = []) :
+    run ⟨ps, true⟩ b = run ⟨ps, false⟩ b := run_escSpace ps b h
+
+/-- `cjk_escaped_space_writer`. `html.NewWriter(html.WithEscapedSpace())` (model GM.Model.Writer, tied by component
+    `render`) writes, for every byte string that does not contain the two bytes backslash-space, exactly what the
+    default writer writes. -/
+theorem cjk_escaped_space_writer (v : Bytes) (h : Ext.hasInfix Ext.escSp v = false) : write true v = write false v :=
+  Ext.write_escSpace v h
+
+/-- `never_consulted`, sharper: only PUNCTUATION bytes of the source matter (a byte that is neither punctuation nor
+    white space is never a table index: it passes the trigger test only at a line head, with index ' '). -/
+theorem never_consulted_punct (b : Block) (l1 l2 : List Parser) (q : Parser) (escapedSpace : Bool)
+    (h32 : (32 : UInt8) ∉ q.triggers) (hsrc : ∀ c ∈ b.src, isPunct c = true → c ∉ q.triggers) :
+    run ⟨l1 ++ q :: l2, escapedSpace⟩ b = run ⟨l1 ++ l2, escapedSpace⟩ b :=
+  run_unused_punct b l1 l2 q escapedSpace h32 hsrc
+
+/-! ### never consulted, on the CONCRETE inline phase (default parsers plugged in) -/
+
+/-- `never_consulted_concrete`. GM.Model.InlinesLoopX is the concrete inline phase of a block (`parseBlock` of
+    GM.Model.InlinesLoop: the real code span / link / autolink / raw HTML / emphasis parser models, delimiter
+    processing, link labels) over an open trigger table. Add ONE more inline parser `x` to the default table — at any
+    place `pos c` of any entry, whatever its `Parse` does to reader, children and context. For every source that
+    contains none of `x`'s trigger bytes (and `x` not registered for ' '), every well-formed padding-free line list,
+    every reference map and Unicode class assignment (`env`): the result is `parseBlock`'s — the same tree, or the
+    same panic. -/
+theorem never_consulted_concrete {src : Bytes} {segs : List Text.Segment} (W : Spec.WFSegs src segs)
+    (Z : ∀ s ∈ segs, s.padding = 0) (env : Inl.Env) (x : Inl.XParser) (pos : UInt8 → Nat)
+    (h32 : (32 : UInt8) ∉ x.triggers) (hsrc : ∀ c ∈ src, c ∉ x.triggers) :
+    Inl.parseBlockX env (Inl.insertTbl x pos Inl.baseTbl) src segs = Inl.parseBlock env src segs :=
+  Proof.InlinesLoopX.parseBlock_unused W Z env x pos h32 hsrc
+
+/-- the open-table model with the default table IS the concrete model (refinement, every source) -/
+theorem concrete_open_table_refines {src : Bytes} {segs : List Text.Segment} (W : Spec.WFSegs src segs)
+    (Z : ∀ s ∈ segs, s.padding = 0) (env : Inl.Env) :
+    Inl.parseBlockX env Inl.baseTbl src segs = Inl.parseBlock env src segs :=
+  Proof.InlinesLoopX.parseBlockX_eq W Z env _ rfl (fun _ _ => rfl)
+
+/-- Strikethrough on the concrete inline phase: ANY parser with the regenerated trigger bytes of
+    `(*strikethroughParser).Trigger()`, added to the default parsers at any priority, leaves the inline tree of every
+    block of a source without '~' unchanged. -/
+theorem ext_strikethrough_conservative_concrete {src : Bytes} {segs : List Text.Segment} (W : Spec.WFSegs src segs)
+    (Z : ∀ s ∈ segs, s.padding = 0) (env : Inl.Env) (x : Inl.XParser) (pos : UInt8 → Nat)
+    (hx : x.triggers = Spec.Ext.triggersOf "strikethrough" "inline") (hsrc : (126 : UInt8) ∉ src) :
+    Inl.parseBlockX env (Inl.insertTbl x pos Inl.baseTbl) src segs = Inl.parseBlock env src segs := by
+  have hsub := hx ▸ strikethrough_triggers
+  refine Proof.InlinesLoopX.parseBlock_unused W Z env x pos (fun h => ?_) (fun c hc ht => ?_)
+  · have := mem_of_subset hsub h; simp at this
+  · have := mem_of_subset hsub ht; simp at this; subst this; exact hsrc hc
+
+/-- TaskList on the concrete inline phase: the same for `(*taskCheckBoxParser).Trigger()` and sources without '['. -/
+theorem ext_tasklist_conservative_concrete {src : Bytes} {segs : List Text.Segment} (W : Spec.WFSegs src segs)
+    (Z : ∀ s ∈ segs, s.padding = 0) (env : Inl.Env) (x : Inl.XParser) (pos : UInt8 → Nat)
+    (hx : x.triggers = Spec.Ext.triggersOf "taskList" "inline") (hsrc : (91 : UInt8) ∉ src) :
+    Inl.parseBlockX env (Inl.insertTbl x pos Inl.baseTbl) src segs = Inl.parseBlock env src segs := by
+  have hsub := hx ▸ taskList_triggers
+  refine Proof.InlinesLoopX.parseBlock_unused W Z env x pos (fun h => ?_) (fun c hc ht => ?_)
+  · have := mem_of_subset hsub h; simp at this
+  · have := mem_of_subset hsub ht; simp at this; subst this; exact hsrc hc
+
 /-! ### non-vacuity and tests on literals -/
 
 /-- "bar    " (the content of `### bar    ###`) as a one-line block -/
@@ -99,6 +363,40 @@ example : Contract ([] : List Parser) := fun _ h => by cases h
 example : (run ⟨[], false⟩ barBlock).st.kids = [.text 4 7 false false] := by decide +kernel
 example : (run ⟨[linkifyLike], false⟩ barBlock).st.kids = [.text 10 10 false false, .text 4 7 false false] := by decide +kernel
 example : resolve barBlock.src (run ⟨[linkifyLike], false⟩ barBlock).st.kids =
+    resolve barBlock.src (run ⟨[], false⟩ barBlock).st.kids := by decide +kernel
+
+
+/-- the hypotheses of the per-extension theorems are satisfiable, and the models do accept when the characters are
+    there (tests on literals) -/
+example : Ext.linkifyParse false (strBytes " see a@b.cd.") = .nil 0 := by decide +kernel
+example : Ext.linkifyParse false (strBytes " a@b.cd.") = .node "email" 7 true := by decide +kernel
+example : Ext.linkifyParse false (strBytes "(www.x") = .regexp := by decide +kernel
+example : Ext.hasInfix Ext.domainWWW (strBytes "see www.x") = true := by decide +kernel
+example : Ext.hasInfix Ext.domainWWW (strBytes "ww w. wow") = false := by decide +kernel
+example : Ext.footnoteParse (some [strBytes "a"]) (strBytes "[^a] x") = .node "footnoteLink" 4 false := by decide +kernel
+example : Ext.footnoteParse none (strBytes "!x^a] y") = .nil 5 := by decide +kernel
+example : Ext.footnoteOpen (strBytes "[^a]: x") 0 = .node "footnote" 8 5 := by decide +kernel
+example : Ext.defListOpen false (strBytes ": x") 0 0 (.paragraph false) = .node "new" 40 0 := by decide +kernel
+example : Ext.typoParse (strBytes "--- x") = .node "emdash" 3 false := by decide +kernel
+example : Ext.typoParse (strBytes "*x") = .nil 0 := by decide +kernel
+example : Ext.taskParse true (strBytes "[x]  y") = .node "checked" 5 false := by decide +kernel
+/-- a rune class that is wide exactly on the CJK ideograph 一: ASCII-narrow, and it does suppress a break -/
+def demoClass : Ext.RuneClass := ⟨(· == 0x4E00), (· == 0x4E00), fun _ => false, fun _ => false, fun _ => false⟩
+example : Ext.AsciiNarrow demoClass := fun r hr => by
+  have : (r == 0x4E00) = false := by simp; omega
+  simp [demoClass, this]
+example : Ext.softBreakWritten demoClass 1 false 0x4E00 (some 0x4E00) = false := by decide
+example : Ext.softBreakWritten demoClass 1 false 97 (some 98) = true := by decide
+example : write true (strBytes "a\\ b") ≠ write false (strBytes "a\\ b") := by decide +kernel
+example : Ext.hasInfix Ext.escSp (strBytes "a \\b\\") = false := by decide +kernel
+/-- a block without '~': strikethrough's hypothesis holds; the regenerated trigger set is not empty -/
+example : (126 : UInt8) ∉ barBlock.src := by decide
+example : Spec.Ext.triggersOf "strikethrough" "inline" ≠ [] := by decide +kernel
+example : Spec.Ext.triggersOf "linkify" "inline" = [32, 42, 95, 126, 40] := by decide +kernel
+/-- Linkify on `### bar    ###`: consulted (5 calls), all declined, same resolved text -/
+example : (run ⟨[extParser barBlock 7 (Spec.Ext.triggersOf "linkify" "inline") (fun _ _ => Ext.linkifyParse false)], false⟩ barBlock).st.log.length = 5 := by
+  decide +kernel
+example : resolve barBlock.src (run ⟨[extParser barBlock 7 (Spec.Ext.triggersOf "linkify" "inline") (fun _ _ => Ext.linkifyParse false)], false⟩ barBlock).st.kids =
     resolve barBlock.src (run ⟨[], false⟩ barBlock).st.kids := by decide +kernel
 
 end GM.Props.C11
